@@ -160,6 +160,11 @@ def r31_2(ctx):
             if reads_file and reads_msg:
                 tests.append(x)
     ctx.floor('R31.2 file-name tests in isSuppressed', len(tests), 1)
+    if not any(x.get('fn') == 'PathMatch::match' for x in tests):
+        tests = tests[:1]
+    else:
+        # an additional exact-equality fast path is subsumed by the matcher; a different matcher is not
+        tests = [x for x in tests if x.get('fn') == 'PathMatch::match' or x.get('k') in ('CallExpr', 'CXXMemberCallExpr')]
     for i, x in enumerate(tests):
         ok = x.get('fn') == 'PathMatch::match'
         ctx.ob('R31.2', 'suppression-file-test:%d' % i, ok, 'isSuppressed compares the file pattern through PathMatch::match' if ok else
